@@ -62,6 +62,8 @@ mut("C01", "last-updated-not-bumped-on-del", AC, "        self.state\n          
 mut("C02", "F11-reverted-set", AC, "        docs.retain(|doc| seen_ids.insert(doc.id()));", "        docs.retain(|doc| seen_ids.insert(doc.id()) || true);")
 mut("C02", "bulk-error-folds-all", AC, "                .filter(|entry| successful_ids.contains(&entry.0));\n\n            for (doc_id, ts) in successful_entries {\n                self.state.insert_with_source", "                .filter(|entry| successful_ids.contains(&entry.0) || true);\n\n            for (doc_id, ts) in successful_entries {\n                self.state.insert_with_source")
 mut("C02", "set-before-store", AC, "        self.storage\n            .put_with_ctx(&self.name, msg.doc, msg.ctx.as_ref())\n            .await?;\n", "        self.state.insert_with_source(msg.source, doc_id, ts);\n        self.storage\n            .put_with_ctx(&self.name, msg.doc, msg.ctx.as_ref())\n            .await?;\n")
+mut("C02", "set-failure-swallowed", AC, "        self.storage\n            .put_with_ctx(&self.name, msg.doc, msg.ctx.as_ref())\n            .await?;\n", "        if self.storage\n            .put_with_ctx(&self.name, msg.doc, msg.ctx.as_ref())\n            .await.is_err() { return Ok(()); }\n")
+mut("C02", "bulk-failure-swallowed", AC, "        if let Err(error) = res {\n            let successful_ids = HashSet::<_>::from_iter(error.successful_doc_ids());\n            let successful_entries = valid_entries\n                .into_iter()\n                .filter(|entry| successful_ids.contains(&entry.0));\n\n            for (doc_id, ts) in successful_entries {\n                self.state.insert_with_source(msg.source, doc_id, ts);\n            }\n            Err(error)\n        } else {\n            for (doc_id, ts) in valid_entries {\n                self.state.insert", "        if let Err(error) = res {\n            let successful_ids = HashSet::<_>::from_iter(error.successful_doc_ids());\n            let successful_entries = valid_entries\n                .into_iter()\n                .filter(|entry| successful_ids.contains(&entry.0));\n\n            for (doc_id, ts) in successful_entries {\n                self.state.insert_with_source(msg.source, doc_id, ts);\n            }\n            Ok(())\n        } else {\n            for (doc_id, ts) in valid_entries {\n                self.state.insert")
 mut("C02", "purge-failure-not-readded", AC, "            self.state.add_raw_tombstones(tombstones);\n", "            drop::<StateChanges>(tombstones);\n")
 mut("C02", "del-skips-will-apply", AC, "        if !self.state.will_apply(msg.doc.id, msg.doc.last_updated) {\n            return Ok(());\n        }\n\n        self.storage\n            .mark_as_tombstone", "        self.storage\n            .mark_as_tombstone")
 # --- C07
